@@ -240,8 +240,55 @@ class Affine:
             env = dict(env)
             if k == 'ForStmt' and t.get('init') is not None:
                 env = self._stmt(t['init'], env)
-            for vid in self._assigned([t.get('body'), t.get('inc'), t.get('cond')]):
+            before = dict(env)
+            loopw = self._assigned([t.get('body'), t.get('inc'), t.get('cond')])
+            for vid in loopw:
                 env[vid] = ({self.names.get(vid, '?%s' % vid): 1}, 0)       # its value in the current round: an opaque leaf named after the variable
+            # induction variables: written exactly once per round, unconditionally, by `v += S` / `v++` with a round-invariant S,
+            # hold  (value in front of the loop) + #k * S  in round #k - whatever the variable is called and whether it counts
+            # frames, bytes or walks a pointer
+            opaque = {self.names.get(v_, '?%s' % v_) for v_ in loopw}
+            body = t.get('body')
+            top = (body.get('body') or []) if isinstance(body, dict) and body.get('k') == 'CompoundStmt' else [body]
+            top = list(top) + ([t['inc']] if k == 'ForStmt' and t.get('inc') is not None else [])
+            for vid in loopw:
+                steps = []
+                nwrites = 0
+                for x in walk([t.get('body'), t.get('inc'), t.get('cond')]):
+                    if not isinstance(x, dict):
+                        continue
+                    ap = assign_parts_raw(x)
+                    tt = ap[0] if ap else (x['e'] if is_incdec(x) else None)
+                    if tt is not None and strip(tt).get('k') == 'DeclRefExpr' and strip(tt)['id'] == vid:
+                        nwrites += 1
+                    if x.get('k') == 'DeclStmt' and any(v_['id'] == vid for v_ in x.get('decls', [])):
+                        nwrites += 2
+                for y in top:
+                    yy = y
+                    cands = [yy]
+                    if isinstance(yy, dict) and yy.get('k') == 'BinaryOperator' and yy.get('op') == ',':
+                        cands = [yy['l'], yy['r']]
+                    for c_ in cands:
+                        c_ = strip(c_) if isinstance(c_, dict) else c_
+                        if not isinstance(c_, dict):
+                            continue
+                        ap = assign_parts_raw(c_)
+                        if ap and strip(ap[0]).get('k') == 'DeclRefExpr' and strip(ap[0])['id'] == vid and ap[2] in ('+=', '-='):
+                            f_ = self.form(ap[1], env)
+                            steps.append(scale_form(f_, 1 if ap[2] == '+=' else -1) if f_ is not None else None)
+                        elif is_incdec(c_) and strip(c_['e']).get('k') == 'DeclRefExpr' and strip(c_['e'])['id'] == vid:
+                            steps.append(({}, 1 if c_['op'] == '++' else -1))
+                if nwrites == 1 and len(steps) == 1 and steps[0] is not None and not (set(steps[0][0]) & opaque) and vid in before and before[vid] is not None:
+                    S = steps[0]
+                    if not S[0]:
+                        kS = ({'#k': S[1]}, 0) if S[1] else ({}, 0)
+                    elif len(S[0]) == 1 and S[1] == 0:
+                        (l_, c_), = S[0].items()
+                        kS = ({'*'.join(sorted(('#k', l_))): c_}, 0)
+                    else:
+                        kS = None
+                    if kS is not None:
+                        env[vid] = add_forms(before[vid], kS)
             inner = self._stmt(t.get('body'), dict(env))       # look for the stop point inside (entry state of an arbitrary iteration)
             if self.result is not None:
                 return None
